@@ -353,6 +353,14 @@ class AttributeCollection(MutableMapping[int, Attribute]):
         # since index() is used for equality comparisons. See lab/benchmark_attr_index.py
         if not self._idx:
             idx = ''.join(self._generate_text())
+            # the text says nothing of an attribute which is present but empty (as-path [ ]), and
+            # pack_attribute sends such an attribute as given where an absent one gets the default:
+            # the two collections do not pack to the same bytes, so they must not share an index
+            idx += ''.join(
+                ' empty-0x{:02X}'.format(code)
+                for code in sorted(self.keys())
+                if code not in AttributeCollection.INTERNAL and not self[code].NO_GENERATION and not str(self[code])
+            )
             nexthop = str(self.get(Attribute.CODE.NEXT_HOP, 'missing'))
             text = '{} next-hop {}'.format(idx, nexthop) if nexthop else idx
             self._idx = text.encode()
